@@ -181,9 +181,12 @@ def run(ctx):
         acc, r, _ = tc.runtime_ok(c["S"], c["v"])
         return acc and r == tc.ser(tc.to_value(c["v"]))
 
-    pool = [c for c in cases if c["tlc"]["judged"] and c["S"]["k"] != "none" and c["tlc"]["s"] != c["tlc"]["t"]
-            and not fs_sensitive(c)]
-    n_wf = 400 if ctx.thorough else 32
+    # a value holding a set of mixed element kinds cannot be hashed by pydra (C07/C08): the node
+    # would fail for a reason that is not the connection's types
+    pool = [c for c, r in zip(cases, res)
+            if c["tlc"]["judged"] and c["S"]["k"] != "none" and c["tlc"]["s"] != c["tlc"]["t"]
+            and not fs_sensitive(c) and not tc.mixed_set(c["v"]) and not (r["acc"] and tc.mixed_set(r["r"]))]
+    n_wf = 160 if ctx.thorough else 32
     dev = [c for c in pool if not c["tlc"]["asbuilt"]]
     sample = [c for c in (ctx.rng.sample(dev, min(len(dev), n_wf // 4)) +
                           ctx.rng.sample(pool, min(len(pool), 2 * n_wf))) if stored_unchanged(c)][:n_wf]
